@@ -23,6 +23,8 @@ import (
 // Doc is the logical content of one document.
 //
 //	t  text, analysed by the standard analyser, stored, with positions (0-2 values)
+//	u  text, analysed, without positions, not stored (0-1 value): terms that occur once in a
+//	   merged segment get the "1-hit" postings encoding the optimised searchers special-case
 //	k  keyword, stored, sortable, aggregatable (0-2 distinct values)
 //	n  numeric on a quarter grid (exactly summable), stored, sortable, aggregatable (0-2 distinct)
 //	x  numeric, arbitrary finite floats (tolerance class), sortable, aggregatable (0-1)
@@ -30,6 +32,7 @@ import (
 type Doc struct {
 	ID string    `json:"id"`
 	T  []string  `json:"t,omitempty"`
+	U  []string  `json:"u,omitempty"`
 	K  []string  `json:"k,omitempty"`
 	N  []float64 `json:"n,omitempty"`
 	X  []float64 `json:"x,omitempty"`
@@ -323,6 +326,14 @@ func genDoc(t *rapid.T, p params, id string) Doc {
 		}
 		d.T = append(d.T, strings.Join(ws, " "))
 	}
+	if rapid.IntRange(0, 3).Draw(t, "hasU") > 0 {
+		nw := rapid.IntRange(1, 4).Draw(t, "nUWords")
+		var ws []string
+		for j := 0; j < nw; j++ {
+			ws = append(ws, words[skewed(t, p.nWords, "uword")])
+		}
+		d.U = append(d.U, strings.Join(ws, " "))
+	}
 	nk := rapid.SampledFrom([]int{0, 1, 1, 1, 2}).Draw(t, "nKw")
 	for i := 0; i < nk; i++ {
 		v := kws[skewed(t, p.nKws, "kw")]
@@ -462,7 +473,8 @@ func genBatches(t *rapid.T, label string, members []int, unique map[int]bool, al
 			}
 		}
 		// junk: inserted by some batch, deleted by a later one
-		if rapid.IntRange(0, 2).Draw(t, label+"Junk") == 0 {
+		switch rapid.IntRange(0, 8).Draw(t, label+"Junk") {
+		case 0, 1, 2:
 			k := rapid.IntRange(1, 3).Draw(t, label+"NJunk")
 			for j := 0; j < k; j++ {
 				in := rapid.IntRange(0, len(batches)).Draw(t, label+"JunkIn")
@@ -470,6 +482,14 @@ func genBatches(t *rapid.T, label string, members []int, unique map[int]bool, al
 				out := rapid.IntRange(in+1, len(batches)).Draw(t, label+"JunkOut")
 				batches = addOp(batches, out, Op{"del", j})
 			}
+		case 3:
+			// churn: a junk insertion and its deletion in batches of their own after every
+			// batch, so that segments with pending deletions exist while merges are introduced
+			var churned [][]Op
+			for bi, b := range batches {
+				churned = append(churned, b, []Op{{"junk", bi % 3}}, []Op{{"del", bi % 3}})
+			}
+			batches = churned
 		}
 	}
 	if rapid.IntRange(0, 11).Draw(t, label+"EmptyBatch") == 0 {
@@ -621,9 +641,10 @@ func (r *Recipe) fixNothingWritten() {
 // queries
 
 type vocab struct {
-	p      params
-	tokens []string // analysed tokens present in the corpus (lower case)
-	kws    []string
+	p       params
+	tokens  []string // analysed tokens of field t present in the corpus (lower case)
+	utokens []string // same for field u
+	kws     []string
 }
 
 func corpusVocab(p params, docs []Doc) vocab {
@@ -638,6 +659,14 @@ func corpusVocab(p params, docs []Doc) vocab {
 				}
 			}
 		}
+		for _, u := range d.U {
+			for _, w := range strings.Fields(strings.ToLower(u)) {
+				if !seen["u:"+w] {
+					seen["u:"+w] = true
+					v.utokens = append(v.utokens, w)
+				}
+			}
+		}
 		for _, k := range d.K {
 			if !seen["k:"+k] {
 				seen["k:"+k] = true
@@ -646,6 +675,7 @@ func corpusVocab(p params, docs []Doc) vocab {
 		}
 	}
 	sort.Strings(v.tokens)
+	sort.Strings(v.utokens)
 	sort.Strings(v.kws)
 	return v
 }
@@ -655,6 +685,24 @@ func (v vocab) word(t *rapid.T, label string) string {
 		return v.tokens[rapid.IntRange(0, len(v.tokens)-1).Draw(t, label)]
 	}
 	return strings.ToLower(words[rapid.IntRange(0, len(words)-1).Draw(t, label+"Any")])
+}
+
+func (v vocab) uword(t *rapid.T, label string) string {
+	if len(v.utokens) > 0 && rapid.IntRange(0, 7).Draw(t, label+"Present") > 0 {
+		return v.utokens[rapid.IntRange(0, len(v.utokens)-1).Draw(t, label)]
+	}
+	return strings.ToLower(words[rapid.IntRange(0, len(words)-1).Draw(t, label+"Any")])
+}
+
+// termLeaf is a plain term query on one of the three term-bearing fields.
+func (v vocab) termLeaf(t *rapid.T) Q {
+	switch rapid.IntRange(0, 5).Draw(t, "termField") {
+	case 0, 1, 2:
+		return Q{Kind: "term", Field: "u", Text: v.uword(t, "uTerm")}
+	case 3, 4:
+		return Q{Kind: "term", Field: "k", Text: v.kw(t, "kwTerm")}
+	}
+	return Q{Kind: "term", Field: "t", Text: v.word(t, "term")}
 }
 
 func (v vocab) kw(t *rapid.T, label string) string {
@@ -688,8 +736,10 @@ func genRange(t *rapid.T, v vocab) Q {
 
 func genLeaf(t *rapid.T, v vocab) Q {
 	switch k := rapid.IntRange(0, 19).Draw(t, "leafKind"); {
-	case k <= 5:
+	case k <= 3:
 		return Q{Kind: "term", Field: "t", Text: v.word(t, "term"), Boost: genBoost(t)}
+	case k <= 5:
+		return Q{Kind: "term", Field: "u", Text: v.uword(t, "uTerm"), Boost: genBoost(t)}
 	case k <= 7:
 		return Q{Kind: "term", Field: "k", Text: v.kw(t, "kwTerm"), Boost: genBoost(t)}
 	case k <= 9:
@@ -698,7 +748,7 @@ func genLeaf(t *rapid.T, v vocab) Q {
 		for i := 0; i < n; i++ {
 			ws = append(ws, v.word(t, "matchWord"))
 		}
-		return Q{Kind: "match", Field: "t", Text: strings.Join(ws, " "), And: rapid.Bool().Draw(t, "matchAnd"), Boost: genBoost(t)}
+		return Q{Kind: "match", Field: rapid.SampledFrom([]string{"t", "u"}).Draw(t, "matchField"), Text: strings.Join(ws, " "), And: rapid.Bool().Draw(t, "matchAnd"), Boost: genBoost(t)}
 	case k <= 11:
 		return Q{Kind: "phrase", Field: "t", Text: v.word(t, "ph1") + " " + v.word(t, "ph2"), Slop: rapid.SampledFrom([]int{0, 0, 1, 2}).Draw(t, "slop")}
 	case k <= 13:
@@ -707,7 +757,7 @@ func genLeaf(t *rapid.T, v vocab) Q {
 			return Q{Kind: "prefix", Field: "k", Text: firstRunes(w, 1)}
 		}
 		w := v.word(t, "prefixWord")
-		return Q{Kind: "prefix", Field: "t", Text: firstRunes(w, rapid.IntRange(1, 2).Draw(t, "prefixLen"))}
+		return Q{Kind: "prefix", Field: rapid.SampledFrom([]string{"t", "u"}).Draw(t, "prefixField"), Text: firstRunes(w, rapid.IntRange(1, 2).Draw(t, "prefixLen"))}
 	case k == 14:
 		return genRange(t, v)
 	case k == 15:
@@ -740,8 +790,28 @@ func firstRunes(s string, n int) string {
 }
 
 func genQuery(t *rapid.T, v vocab, depth int) Q {
-	if depth >= 2 || rapid.IntRange(0, 9).Draw(t, "queryKind") < 4 {
+	k := rapid.IntRange(0, 11).Draw(t, "queryKind")
+	if depth >= 2 || k < 4 {
 		return genLeaf(t, v)
+	}
+	if k >= 10 {
+		// what the conjunction / disjunction optimisations are made for: plain term clauses
+		q := Q{Kind: "bool"}
+		n := rapid.IntRange(2, 3).Draw(t, "nTermClauses")
+		for i := 0; i < n; i++ {
+			if k == 10 {
+				q.Must = append(q.Must, v.termLeaf(t))
+			} else {
+				q.Should = append(q.Should, v.termLeaf(t))
+			}
+		}
+		if k == 11 {
+			q.MinShould = rapid.IntRange(0, 2).Draw(t, "minShould")
+			if rapid.Bool().Draw(t, "withMust") {
+				q.Must = append(q.Must, v.termLeaf(t))
+			}
+		}
+		return q
 	}
 	q := Q{Kind: "bool"}
 	nm := rapid.IntRange(0, 2).Draw(t, "nMust")
